@@ -1,6 +1,7 @@
 import Hertz.Driver.Core
 import Hertz.Model.ClientSim
 import Hertz.Model.ClientHosts
+import Hertz.Model.ClientHelper
 /-!
 C10 driver ops.
 
@@ -102,7 +103,51 @@ def stepTag : CStep → String
 
 def dedup (l : List String) : List String := l.foldl (fun acc x => if acc.contains x then acc else acc ++ [x]) []
 
+/-! ### `c10url`: the convenience layer (`GetURLTimeout`), model `Model/ClientHelper.lean`
+
+`c10url (s<i>S | s<i>L | d<i> | t<i> | r<i>)* | (T | G<v> | E:… | HANG)*` — per call what it returned.  At the end the op
+releases every parked request and waits for every call, in index order. -/
+
+def urlStep (tok : String) : Option (ClientHelper.Ev × Nat × Bool) :=
+  let body := (tok.drop 1).toString
+  let num := if body.endsWith "S" || body.endsWith "L" then (body.dropRight 1) else body
+  match num.toNat? with
+  | none => none
+  | some i =>
+    match tok.front with
+    | 's' => some (.start i 0, i, body.endsWith "S")
+    | 'd' => some (.send i, i, false)
+    | 't' => some (.timeout i, i, false)
+    | 'r' => some (.recv i, i, false)
+    | _ => none
+
+def urlHandle (toks impl : List String) : Option Result := do
+  let steps ← toks.mapM urlStep
+  let maxI := steps.foldl (fun m x => max m x.2.1) 0
+  let s := ClientHelper.run false ClientHelper.init (steps.map (·.1))
+  -- the end of the op: everything still parked is released, then every call is waited for in index order
+  let calls := List.range (maxI + 1)
+  let s := ClientHelper.run false s (calls.map .send)
+  let s := calls.foldl (fun s i => ClientHelper.step false s (.recv i)) s
+  let tokOf (i : Nat) : String := match s.phase i with
+    | .got v => "G" ++ toString v
+    | .timedOut => "T"
+    | .waiting _ => "HANG"
+    | .idle => "-"
+  let out := calls.map tokOf
+  -- the property, on the implementation's tokens alone: a call that returns a result returns the result of ITS request
+  let own := (impl.zip calls).all (fun (t, i) => !t.startsWith "G" || t == "G" ++ toString i)
+  let clean := impl.all (fun t => t == "T" || t.startsWith "G" || t == "-")
+  let nT := (out.filter (· == "T")).length
+  let late := steps.any (fun x => match x.1 with
+    | .send i => steps.any (fun y => y.1 == .timeout i) | _ => false)
+  pure { out, spec := own && clean,
+         specNote := "a helper call that returns a result returns the result of its own request; no error, no hang",
+         tag := "c10url:" ++ toString (min calls.length 5) ++ ":t" ++ toString (min nT 3) ++ (if late then ":late" else "") ++
+                ":p" ++ toString (min s.pool.length 3) }
+
 def handle : Handler
+  | "c10url" :: toks, impl => urlHandle toks impl
   | "c10seq" :: max :: wait :: _n :: reqs, impl => do
     let max ← nat? max
     let reqs ← parseReqs reqs
